@@ -81,10 +81,16 @@ def opAdd2 : TOp2 :=
      | some u => (p.1, ⟨p.2.shape, fun c => p.2.get c + u.get c⟩)
      | none => p)⟩
 
+/-- `td.set("c", const)` with a value that does not depend on the vmapped input (`const = arange(100000, …)` of
+shape batch + [2]): every sample receives the whole value -/
+def opSetConst : TOp :=
+  ⟨id, fun _ n => n, fun b l => (l.filter (fun p => p.1 != "c")) ++ [("c", arangeT 100000 (b ++ [2]))]⟩
+
 /-- is the operation applicable to a tensordict of this batch size / these keys (else the real call raises) -/
 inductive OpName where
   | mul2 | add1 | neg | unsqueeze (d : Nat) | permuteRev | transpose01 | idx0 | expand2 | stackSelf | sum0 | catSelf
   | select (k : String) | exclude (k : String) | setMul3 (s d : String) | rename (s d : String) | flattenKeys | clone
+  | setConst | deepen
   | vmap (i o : Int) (p : List OpName)
 
 def OpName.simpleOp : OpName → Option TOp
@@ -94,6 +100,8 @@ def OpName.simpleOp : OpName → Option TOp
   | .catSelf => some opCatSelf | .select k => some (opSelect k) | .exclude k => some (opExclude k)
   | .setMul3 s d => some (opSetMul3 s d) | .rename s d => some (opRename s d)
   | .flattenKeys => some (opEwise id) | .clone => some (opEwise id)
+  | .setConst => some opSetConst
+  | .deepen => some (opEwise id)   -- re-declares the nested node `n` with batch size batch ++ [1]: no leaf changes
   | .vmap .. => none
 
 /-- applicability of a simple operation on a per-sample batch size -/
